@@ -34,7 +34,7 @@ import (
 //
 // case line:  kind  cmdspec  template  observation
 //   template     = segments joined by '+':  h<hex>  |  r<count>x<hex>
-//   observation  = cmd|dec|data|uni|acc|zero|dyn|depth|card      (or crash / timeout)
+//   observation  = cmd|dec|data|uni|acc|zero|dyn|depth|card|neg  (or crash / timeout)
 // cost line:   cost  shape  n  t1|t2|alloc1|alloc2|len1|len2|class1|class2
 
 func init() {
@@ -136,6 +136,7 @@ type c11Acc struct {
 	mu    sync.Mutex
 	panic string // first accessor that panicked
 	zero  bool   // a sequence number / UID 0 was handed to the caller
+	neg   bool   // a size / count / limit below zero was handed to the caller
 	dyn   bool   // an open-ended ("*") set was handed to the caller
 	depth int    // deepest delivered tree
 	card  uint64 // largest cardinality of a delivered static set
@@ -173,6 +174,15 @@ func (a *c11Acc) noteDepth(d int) {
 }
 
 func (a *c11Acc) noteZero() { a.mu.Lock(); a.zero = true; a.mu.Unlock() }
+
+// noteNum64 judges a 64-bit size, count or limit handed to the caller
+func (a *c11Acc) noteNum64(v int64) {
+	if v < 0 {
+		a.mu.Lock()
+		a.neg = true
+		a.mu.Unlock()
+	}
+}
 
 const c11MaxEnum = 1000000
 
@@ -344,9 +354,11 @@ func (a *c11Acc) bodyTo(sb *strings.Builder, bs imap.BodyStructure, depth int) {
 		})
 		fmt.Fprintf(sb, "s[%s/%s/%s/%s/%d", hx([]byte(bs.Type)), hx([]byte(bs.Subtype)), hx([]byte(bs.Encoding)), hx([]byte(bs.ID)), bs.Size)
 		if bs.Text != nil {
+			a.noteNum64(bs.Text.NumLines)
 			fmt.Fprintf(sb, "/t%d", bs.Text.NumLines)
 		}
 		if bs.MessageRFC822 != nil {
+			a.noteNum64(bs.MessageRFC822.NumLines)
 			a.envelope(bs.MessageRFC822.Envelope)
 			sb.WriteString("/r")
 			a.bodyTo(sb, bs.MessageRFC822.BodyStructure, depth+1)
@@ -396,6 +408,7 @@ func (a *c11Acc) message(buf *imapclient.FetchMessageBuffer) string {
 	if buf.UID != 0 {
 		it = append(it, fmt.Sprintf("U%d", buf.UID))
 	}
+	a.noteNum64(buf.RFC822Size)
 	if buf.RFC822Size != 0 {
 		it = append(it, fmt.Sprintf("Z%d", buf.RFC822Size))
 	}
@@ -624,7 +637,7 @@ func c11Issue(cl *imapclient.Client, a, sa *c11Acc, spec string) func() (string,
 						_ = d.ChildInfo.Subscribed
 					}
 					if d.Status != nil {
-						c11Status(d.Status)
+						c11Status(a, d.Status)
 					}
 				}
 			})
@@ -634,7 +647,7 @@ func c11Issue(cl *imapclient.Client, a, sa *c11Acc, spec string) func() (string,
 		cmd := cl.Status("INBOX", &imap.StatusOptions{NumMessages: true, UIDNext: true, UIDValidity: true, NumUnseen: true})
 		return func() (string, string) {
 			d, err := cmd.Wait()
-			a.try("StatusData", func() { c11Status(d) })
+			a.try("StatusData", func() { c11Status(a, d) })
 			return c11ErrClass(err), "-"
 		}
 	case "getquota":
@@ -644,7 +657,9 @@ func c11Issue(cl *imapclient.Client, a, sa *c11Acc, spec string) func() (string,
 			a.try("QuotaData", func() {
 				if d != nil {
 					for k, v := range d.Resources {
-						_ = len(k) + int(v.Usage+v.Limit)
+						_ = len(k)
+						a.noteNum64(v.Usage)
+						a.noteNum64(v.Limit)
 					}
 				}
 			})
@@ -657,7 +672,9 @@ func c11Issue(cl *imapclient.Client, a, sa *c11Acc, spec string) func() (string,
 			a.try("QuotaRootData", func() {
 				for _, d := range l {
 					for k, v := range d.Resources {
-						_ = len(k) + int(v.Usage+v.Limit)
+						_ = len(k)
+						a.noteNum64(v.Usage)
+						a.noteNum64(v.Limit)
 					}
 				}
 			})
@@ -779,9 +796,14 @@ func c11Issue(cl *imapclient.Client, a, sa *c11Acc, spec string) func() (string,
 	return func() (string, string) { return c11ErrClass(cmd.Wait()), "-" }
 }
 
-func c11Status(d *imap.StatusData) {
+func c11Status(a *c11Acc, d *imap.StatusData) {
 	if d == nil {
 		return
+	}
+	for _, p := range []*int64{d.Size, d.DeletedStorage} {
+		if p != nil {
+			a.noteNum64(*p)
+		}
 	}
 	n := len(d.Mailbox) + int(d.UIDNext) + int(d.UIDValidity) + int(d.HighestModSeq)
 	for _, p := range []*uint32{d.NumMessages, d.NumUnseen, d.NumDeleted, d.AppendLimit} {
@@ -896,9 +918,9 @@ func c11Run(spec string, stream []byte) string {
 	defer sa.mu.Unlock()
 	if cmdClass == "err" {
 		// returned next to a parse error: reported, not delivered
-		a.zero, a.dyn, a.depth, a.card = false, false, 0, 0
+		a.zero, a.dyn, a.depth, a.card, a.neg = false, false, 0, 0, false
 	}
-	a.zero, a.dyn = a.zero || sa.zero, a.dyn || sa.dyn
+	a.zero, a.dyn, a.neg = a.zero || sa.zero, a.dyn || sa.dyn, a.neg || sa.neg
 	if sa.depth > a.depth {
 		a.depth = sa.depth
 	}
@@ -916,7 +938,7 @@ func c11Run(spec string, stream []byte) string {
 	if u == "" {
 		u = "-"
 	}
-	return fmt.Sprintf("%s|%s|%s|%s|%s|%s|%s|%d|%d", cmdClass, decClass, data, u, acc, b01(a.zero), b01(a.dyn), a.depth, a.card)
+	return fmt.Sprintf("%s|%s|%s|%s|%s|%s|%s|%d|%d|%s", cmdClass, decClass, data, u, acc, b01(a.zero), b01(a.dyn), a.depth, a.card, b01(a.neg))
 }
 
 // ---------------------------------------------------------------- cost shapes
@@ -1812,7 +1834,7 @@ var c11BadLits = []struct {
 }{
 	{"{-1}\r\n", false}, {"{99999999999999999999}\r\nab", false}, {"{9223372036854775808}\r\nab", false}, {"{5}\r\nab", true}, {"{5}ab123", false},
 	{"{}\r\n", false}, {"{+5}\r\nhello", false}, {"{5+}\r\nhello", false}, {"{0x5}\r\nhello", false}, {"{5 }\r\nhello", false},
-	{"{9223372036854775807}\r\nab", true}, {"{5", true}, {"{5}\r", true}, {"{ 5}\r\nhello", false}, {"{5}\rhello", false},
+	{"{9223372036854775807}\r\nab", true}, {"{18446744073709551615}\r\n", false}, {"{9223372036854775808}\r\n", false}, {"{5", true}, {"{5}\r", true}, {"{ 5}\r\nhello", false}, {"{5}\rhello", false},
 }
 
 func c11Corpus() []c11Case {
@@ -1855,6 +1877,12 @@ func c11Corpus() []c11Case {
 		mk("noop", "* 1 FETCH (BODY[] NIL UID 5)\r\n", ok),                                  // the same, unilateral
 		mk("noh+noop", "* 1 FETCH (BODY[] NIL UID 5)\r\n* 2 FETCH (BINARY[1] NIL)\r\n", ok), // the same, discarded by the library itself
 		mk("noh+fetch:1:*", "* 1 FETCH (UID 1)\r\n* 1 FETCH (BODY[] NIL)\r\n", ok),
+		mk("fetch:1:*", "* 1 FETCH (RFC822.SIZE 18446744073709551615)\r\n", ok), // 64-bit numbers beyond 2^63-1
+		mk("noop", "* 1 FETCH (RFC822.SIZE 9223372036854775808)\r\n", ok),
+		mk("fetch:1:*", "* 1 FETCH (BODYSTRUCTURE (\"text\" \"plain\" NIL NIL NIL \"7BIT\" 1 18446744073709551615))\r\n", ok),
+		mk("status", "* STATUS INBOX (SIZE 18446744073709551615 DELETED-STORAGE 9223372036854775808)\r\n", ok),
+		mk("getquota:root", "* QUOTA root (STORAGE 18446744073709551615 9223372036854775808)\r\n", ok),
+		mk("fetch:1:*", "* 1 FETCH (BODY[] {18446744073709551615}\r\n)\r\n", ok),
 		mk("sel+expunge", "* 1 EXPUNGE\r\n* 1 EXPUNGE\r\n* 1 EXPUNGE\r\n* 1 EXPUNGE\r\n* OK [CLOSED] x\r\n* 1 EXPUNGE\r\n", "T2 OK done\r\n"),
 	}
 }
